@@ -1,5 +1,5 @@
 import Driver.StoreCmd
-import Driver.McCmd
+import Driver.McRun
 open Driver
 
 partial def storeLoop (h : IO.FS.Stream) (out : IO.FS.Stream) (st : StoreSt) : IO Unit := do
